@@ -90,13 +90,13 @@ Section step.
 
   Lemma mgr_unlock_LR n k s s2 r o D t :
     mgr_unlock cfg n k s = (s2, r, o) →
-    STI s [] → (n, k) ∈ D → LR s D t → fails_ok X t →
+    STI s [] → (n, k) ∈ D → LR s D t → fails_ok X t → t_pending t = [] →
     let t' := done_list cfg i cause (comps o) t in
     r = inr tt ∧ LR s2 (Dminus (n, k) D) t' ∧ fails_ok X t' ∧ st_now s2 = st_now s ∧ ¬ livel (st_locks s2) n k ∧
     (∀ c, c ∈ comps o → c_at c = st_now s ∧ rlock c ∧ c_wid c ∈ w_id <$> st_waiters s ∧ c_wid c ∉ w_id <$> st_waiters s2) ∧
     (∀ w, w ∈ st_waiters s2 → w ∈ st_waiters s) ∧ NoDup (c_wid <$> comps o) ∧ NoDup (w_id <$> st_waiters s2).
   Proof.
-    intros Hm HT HD [HH HW] HX t'.
+    intros Hm HT HD [HH HW] HX Hpend t'.
     destruct (hr_D _ _ _ _ _ _ HH _ _ HD) as (ob & Ho & Hk).
     destruct (ti_cap _ _ _ _ _ HT _ _ Ho) as (Hsz & Hlen & Hnd).
     destruct (remove_first_nodup k _ Hnd) as [Hnd' Hkn].
@@ -129,8 +129,8 @@ Section step.
       assert (fifo_ok tw (t_waiters t) = true) as Hfifo.
       { pose proof (WR_name _ _ (w_name w) HW) as HN. rewrite Hw in HN. unfold fifo_ok. rewrite Hnm.
         inversion HN as [|? tw0 ? ? (Hid0 & _) _]; subst. apply bool_decide_eq_true. congruence. }
-      assert (cap_ok tw (st_now s) (t_holds t) = true) as Hcapok.
-      { unfold cap_ok. rewrite Hnm, Hsize, Hwsz.
+      assert (cap_ok tw (st_now s) (t_holds t) (t_pending t) = true) as Hcapok.
+      { unfold cap_ok, pend_on. rewrite Hpend, Hnm, Hsize, Hwsz. simpl.
         pose proof (hr_count_le _ _ _ _ _ _ HH (w_name w) ob k Ho HD Hk). fold ks in H. lia. }
       subst t'. simpl. unfold done1, c_wid, c_at, c_resp. simpl. erewrite wd_known by exact Hf. simpl.
       unfold grant_flags. rewrite Hcapok, Hfifo. simpl.
